@@ -136,7 +136,9 @@ Definition ContentOK (h : hview) (c : content) : Prop :=
   (* chain passes code-signing validation and the declared algorithm is the one dictated by the leaf key *)
   k_alg c = h_alg h /\ k_alg c <> 0 /\ ChainOK (k_alg c) (h_chain h) /\ k_chain c = map c_raw (h_chain h) /\
   (* extended attributes: exactly the non-specification protected headers, critical iff listed *)
-  k_attrs c = ext_attrs h /\ k_agent c = h_agent h /\ k_ts c = h_ts h.
+  k_attrs c = ext_attrs h /\ k_agent c = h_agent h /\ k_ts c = h_ts h /\
+  (* the content type is the one carried in the protected header (COSE: header 3 must be a present text string) *)
+  k_cty c = match h_cty h with Some x => x | None => 0 end /\ (h_fmt h = 1 -> h_cty h <> None).
 
 Lemma base_ok_spec payload sg alg time expiry chain :
   base_ok sigfrom selfsig payload sg alg time expiry chain = true ->
@@ -164,7 +166,7 @@ Proof.
   destruct (base_ok _ _ _ _ _ _ _ _) eqn:B; [|discriminate]. inversion H; subst c; clear H.
   split; [reflexivity|].
   apply base_ok_spec in B. destruct B as [P [S [A [T [E C]]]]].
-  unfold ContentOK, mk_content. cbn [k_payload k_sig k_scheme k_time k_expiry k_alg k_chain k_attrs k_agent k_ts].
+  unfold ContentOK, mk_content. cbn [k_payload k_sig k_scheme k_time k_expiry k_alg k_chain k_attrs k_agent k_ts k_cty].
   unfold format_ok in F.
   destruct Hf as [Hf|Hf]; rewrite Hf in F; cbn [Z.eqb] in F.
   - (* JWS *)
@@ -206,7 +208,7 @@ Proof.
     split. { intros _. destruct Hpair as [[H0 Ha]|[H1 [Hst _]]].
              - rewrite H0. exact Ha.
              - rewrite H1. exact Hst. }
-    split; [reflexivity|]. split; [exact A|]. split; [exact C|]. repeat split; reflexivity.
+    split; [reflexivity|]. split; [exact A|]. split; [exact C|]. repeat split; try reflexivity. intros X; congruence.
   - (* COSE *)
     change (1 =? 0) with false in F. cbn iota in F.
     rewrite !andb_true_iff in F. destruct F as [[[[[[[Fcty Fsig] Fcrit] Falg] Fsch] Ftime] Fexp] Fchain].
@@ -231,7 +233,8 @@ Proof.
              destruct (h_exp h) as [|t tag|]; cbn [ttime tpresent] in *; try congruence. left. reflexivity. }
     split. { intros H1. apply Hmust. unfold cose_must. apply in_or_app. right. apply in_or_app. left. rewrite H1. left. reflexivity. }
     split; [intros; congruence|]. split; [intros; congruence|].
-    split; [reflexivity|]. split; [exact A|]. split; [exact C|]. repeat split; reflexivity.
+    split; [reflexivity|]. split; [exact A|]. split; [exact C|]. repeat split; try reflexivity.
+    intros _ X. rewrite X in Fcty. discriminate.
 Qed.
 
 (* a successful verification implies that content extraction succeeds with the identical result *)
